@@ -73,6 +73,34 @@ fn find_id(v: &ParsedValue) -> Option<String> {
     }
 }
 
+/// the count keys (with their kind) of every Ranges / Plurals node inside a value
+fn count_keys(v: &ParsedValue, out: &mut Vec<Value>) {
+    match v {
+        ParsedValue::Plurals(p) => {
+            out.push(json!([&*p.count_key.name, "Plural"]));
+            for f in p.forms.values() {
+                count_keys(f, out);
+            }
+            count_keys(&p.other, out);
+        }
+        ParsedValue::Ranges(r) => {
+            out.push(json!([&*r.count_key.name, format!("{:?}", r.get_type())]));
+            let _ = r.try_for_each_value::<_, ()>(|v| {
+                count_keys(v, out);
+                Ok(())
+            });
+        }
+        ParsedValue::Bloc(vs) => vs.iter().for_each(|v| count_keys(v, out)),
+        ParsedValue::Component { inner, .. } => count_keys(inner, out),
+        ParsedValue::ForeignKey(fk) => {
+            if let leptos_i18n_parser::parse_locales::parsed_value::ForeignKey::Set(inner) = &*fk.borrow() {
+                count_keys(inner, out)
+            }
+        }
+        _ => {}
+    }
+}
+
 fn value_tree(v: &ParsedValue) -> Value {
     match v {
         ParsedValue::Subkeys(Some(l)) => json!({"k": "sub", "keys": keys_tree(l)}),
@@ -278,9 +306,21 @@ fn one_project(dir: &str) -> Value {
             };
             // the final (resolved, reduced) value of every top-level key of every locale
             let finals: Vec<Value> = match &bk {
-                BuildersKeys::Locales { locales, .. } => {
-                    locales.iter().map(|l| json!({"name": &*l.name.name, "keys": keys_tree(l)})).collect()
-                }
+                BuildersKeys::Locales { locales, .. } => locales
+                    .iter()
+                    .map(|l| {
+                        let counts: Vec<Value> = l
+                            .keys
+                            .iter()
+                            .map(|(k, v)| {
+                                let mut c = vec![];
+                                count_keys(v, &mut c);
+                                json!([&*k.name, c])
+                            })
+                            .collect();
+                        json!({"name": &*l.name.name, "keys": keys_tree(l), "counts": counts})
+                    })
+                    .collect(),
                 BuildersKeys::NameSpaces { namespaces, .. } => namespaces
                     .iter()
                     .flat_map(|ns| ns.locales.iter().map(move |l| json!({"name": &*l.name.name, "ns": &*ns.key.name, "keys": keys_tree(l)})))
